@@ -1,7 +1,8 @@
 """C02 — integer division conventions (necessary conditions): sign conventions of all truncating
 and Euclidean forms, is_multiple_of == (rem is zero), zero-divisor panics, dispatcher/estimator
 agreement.  Not decided: quotient-digit estimation, normalisation shifts, ConstDivisor reciprocals."""
-from . import intalg, mir, sym, c16
+from . import intalg, mir, sym, c16, guards
+from .c17b import rels_at
 
 PROP = "C02"
 CONFIGS = {"quick": ["dbg", "rel"], "thorough": ["dbg", "rel", "feat", "w32", "nostd"]}
@@ -21,6 +22,7 @@ def run(res, programs, tier):
     intalg.r_sign_tables(res, programs, "R02.3", intalg.DIV_OPS)
     intalg.r01_2(res, programs, "R02.2", "div")
     res.rule("R02.1", "UBig/IBig::is_multiple_of(d) is `self % d` followed by is_zero (shape of the body)")
+    res.rule("R02.4", "division by a prepared ConstDivisor: the long-division kernel is entered whenever the dividend has at least as many words as the divisor (no strict length guard: an equal-length dividend can still exceed the divisor)")
     res.rule("R16.1c", "(shared with C16) every integer division entry passes a zero-divisor test with a diverging edge")
     for P in programs:
         if "dashu_int" not in P.units:
@@ -38,4 +40,32 @@ def run(res, programs, tier):
                 else:
                     res.fail("R02.1", P.name, key, "%s is not `remainder == 0` (calls %s)" % (f["p"], cal[:5]), mir.span_loc(f["sp"]))
         res.floor("R02.1", P.name, n, 2, "is_multiple_of bodies")
+        _r02_4(res, P, P.name)
         c16._r16_1c(res, P, P.name)
+
+
+def _is_len(t):
+    txt = sym.term_str(t, 300)
+    return "::len" in txt or "PtrMetadata" in txt
+
+
+def _r02_4(res, P, cfgname):
+    n = 0
+    for f in P.fns("dashu_int"):
+        if not f["p"].startswith("dashu_int::div_const::"):
+            continue
+        S = None
+        for bb, t, fr in mir.iter_calls(f["mir"]):
+            cp = fr and (fr.get("rp") or fr["p"]) or ""
+            if cp not in ("dashu_int::div::div_rem_in_place", "dashu_int::div::div_rem_unshifted_in_place"):
+                continue
+            S = S or sym.Sym(f)
+            cfg = mir.cfg_of(f["mir"])
+            n += 1
+            strict = [(a, b) for (op, a, b) in rels_at(S, cfg, bb) if op == 'Lt' and _is_len(a) and _is_len(b)]
+            key = "%s: long division entered for len(dividend) >= len(divisor)" % f["p"]
+            if strict:
+                res.fail("R02.4", cfgname, key, "%s enters the division kernel only when %s < %s (strict): a dividend with as many words as the divisor but a larger value is returned unreduced" % (f["p"], sym.term_str(strict[0][0], 60), sym.term_str(strict[0][1], 60)), mir.span_loc(t["sp"]))
+            else:
+                res.ok("R02.4", cfgname, key)
+    res.floor("R02.4", cfgname, n, 4, "division kernel calls in div_const")
